@@ -86,5 +86,7 @@ VEq(a, b) ==
          [] a.k \in {"List", "Tuple"} -> Len(a.xs) = Len(b.xs) /\ \A i \in 1..Len(a.xs) : VEq(a.xs[i], b.xs[i])
          [] a.k = "Dict" -> Len(a.ks) = Len(b.ks) /\ \A i \in 1..Len(a.ks) : a.ks[i] = b.ks[i] /\ VEq(a.vs[i], b.vs[i])
          [] a.k = "Enum" -> a.n = b.n /\ a.has = b.has /\ (a.has => VEq(a.p, b.p))
+         \* a struct value is its type and a value per field: the order in which a literal lists the fields is
+         \* not part of the value (fs is kept in declaration order here)
          [] a.k = "Struct" -> a.n = b.n /\ a.fs = b.fs /\ \A i \in 1..Len(a.vs) : VEq(a.vs[i], b.vs[i])
 =============================================================================
